@@ -444,11 +444,12 @@ Qed.
 Lemma lenN_firstn (n : N) (l : bytes) : n <= lenN l -> lenN (firstn (N.to_nat n) l) = n.
 Proof. unfold lenN. intros H. rewrite firstn_length_le by lia. lia. Qed.
 
-Lemma dec_value_canonical : forall fuel, canon_spec (dec_value fuel).
+Lemma dec_scalar_canonical b0 r v rest :
+  b0 < 256 -> wf_bytes r = true -> b0 / 32 <> 4 -> b0 / 32 <> 5 ->
+  dec_scalar (b0 / 32) (b0 mod 32) r = Ok (v, rest) ->
+  exists pre, b0 :: r = pre ++ rest /\ enc v = Ok pre.
 Proof.
-  induction fuel as [|f IH]; intros b v rest Hwf H; [discriminate|].
-  cbn [dec_value] in H. destruct b as [|b0 r]; [discriminate|].
-  apply wf_bytes_cons in Hwf as [Hb0 Hwr].
+  intros Hb0 Hwr M4 M5 H. unfold dec_scalar in H.
   pose proof (head_split b0) as Hsplit. pose proof (head_major_lt b0 Hb0) as Hmaj.
   pose proof (head_info_lt b0) as Hinfo.
   set (major := b0 / 32) in *. set (info := b0 mod 32) in *.
@@ -482,26 +483,6 @@ Proof.
       exists (b0 :: ext ++ firstn (N.to_nat n) r1). split.
       + cbn [app]. f_equal. rewrite <- app_assoc. f_equal. exact Hsplit1.
       + cbn [enc]. rewrite lenN_firstn by auto. rewrite Hw. cbn [app]. do 2 f_equal. lia. }
-  destruct (N.eqb_spec major 4) as [M4|M4].
-  { apply bind_ok in H as ((n & r1) & Hr & H). apply bind_ok in H as ((items & r2) & Hs & H).
-    inversion H; subst v rest. clear H.
-    destruct (read_len_inv _ _ _ _ Hwr Hinfo Hr) as (ext & -> & Hn64 & _ & Hw).
-    apply wf_bytes_app_iff in Hwr as [_ Hw1].
-    destruct (dec_seq_canonical _ IH _ _ _ _ _ Hw1 Hs) as (body & -> & Eb & Ln).
-    exists (b0 :: ext ++ body). split; [cbn [app]; rewrite <- app_assoc; reflexivity|].
-    cbn [enc]. rewrite Eb. cbn [bind]. rewrite Ln, Hw. cbn [app]. do 2 f_equal. lia. }
-  destruct (N.eqb_spec major 5) as [M5|M5].
-  { apply bind_ok in H as ((n & r1) & Hr & H). apply bind_ok in H as ((es & r2) & Hs & H).
-    inversion H; subst v rest. clear H.
-    destruct (read_len_inv _ _ _ _ Hwr Hinfo Hr) as (ext & -> & Hn64 & _ & Hw).
-    apply wf_bytes_app_iff in Hwr as [_ Hw1].
-    destruct (dec_map_canonical _ IH _ _ _ _ _ _ Hw1 Hs) as (kvs & -> & Em & Ln & C).
-    exists (b0 :: ext ++ concat (map (fun kv => fst kv ++ snd kv) kvs)).
-    split; [cbn [app]; rewrite <- app_assoc; reflexivity|].
-    cbn [enc]. rewrite Em. rewrite (finish_map_sorted _ C).
-    assert (lenN kvs = n).
-    { rewrite <- Ln. unfold lenN. f_equal. apply (f_equal (@length _)) in Em. rewrite !map_length in Em. auto. }
-    rewrite H, Hw. cbn [app]. do 2 f_equal. lia. }
   destruct (N.eqb_spec major 6) as [M6|M6]; [discriminate|].
   apply orb_false_iff in M23 as [M2 M3]. apply N.eqb_neq in M2, M3.
   assert (M7 : major = 7) by lia.
@@ -524,13 +505,71 @@ Proof.
   destruct (N.eqb_spec info 31); discriminate.
 Qed.
 
-Theorem cbor_canonical_core b v :
-  wf_bytes b = true -> decode b = Ok v -> enc v = Ok b.
+
+Lemma dec_value_unfold f depth b0 r :
+  depth <= 128 ->
+  dec_value (S f) depth (b0 :: r) =
+  if b0 / 32 =? 4 then
+    bind (read_len (b0 mod 32) r) (fun '(n, r1) =>
+    bind (dec_seq (dec_value f (depth + 1)) (S (length r1)) n r1) (fun '(items, r2) => Ok (VArray items, r2)))
+  else if b0 / 32 =? 5 then
+    bind (read_len (b0 mod 32) r) (fun '(n, r1) =>
+    bind (dec_map (dec_value f (depth + 1)) (S (length r1)) n None r1) (fun '(es, r2) => Ok (VMap es, r2)))
+  else dec_scalar (b0 / 32) (b0 mod 32) r.
 Proof.
-  intros Hwf H. unfold decode in H.
-  destruct (dec_value (S (length b)) b) as [[v' rest]|e] eqn:E; [|discriminate].
+  intros Hd. cbn [dec_value]. unfold MAX_DECODE_DEPTH. destruct (N.ltb_spec 128 depth); [lia|reflexivity].
+Qed.
+
+Lemma dec_value_scalar_head f depth b0 r :
+  depth <= 128 -> (b0 / 32 =? 4) = false -> (b0 / 32 =? 5) = false ->
+  dec_value (S f) depth (b0 :: r) = dec_scalar (b0 / 32) (b0 mod 32) r.
+Proof. intros Hd H4 H5. rewrite dec_value_unfold by exact Hd. rewrite H4, H5. reflexivity. Qed.
+
+Lemma dec_value_depth_ok f depth b v rest : dec_value (S f) depth b = Ok (v, rest) -> depth <= 128.
+Proof.
+  cbn [dec_value]. unfold MAX_DECODE_DEPTH. destruct (N.ltb_spec 128 depth); [discriminate|auto].
+Qed.
+
+Lemma dec_value_canonical : forall fuel depth, canon_spec (dec_value fuel depth).
+Proof.
+  induction fuel as [|f IH]; intros depth b v rest Hwf H; [discriminate|].
+  pose proof (dec_value_depth_ok _ _ _ _ _ H) as Hd.
+  destruct b as [|b0 r]; [cbn [dec_value] in H; destruct (MAX_DECODE_DEPTH <? depth); discriminate|].
+  rewrite dec_value_unfold in H by exact Hd.
+  apply wf_bytes_cons in Hwf as [Hb0 Hwr].
+  pose proof (head_split b0) as Hsplit. pose proof (head_major_lt b0 Hb0) as Hmaj.
+  pose proof (head_info_lt b0) as Hinfo.
+  specialize (IH (depth + 1)).
+  destruct (N.eqb_spec (b0 / 32) 4) as [M4|M4].
+  { apply bind_ok in H as ((n & r1) & Hr & H). apply bind_ok in H as ((items & r2) & Hs & H).
+    inversion H; subst v rest. clear H.
+    destruct (read_len_inv _ _ _ _ Hwr Hinfo Hr) as (ext & -> & Hn64 & _ & Hw).
+    apply wf_bytes_app_iff in Hwr as [_ Hw1].
+    destruct (dec_seq_canonical _ IH _ _ _ _ _ Hw1 Hs) as (body & -> & Eb & Ln).
+    exists (b0 :: ext ++ body). split; [cbn [app]; rewrite <- app_assoc; reflexivity|].
+    cbn [enc]. rewrite Eb. cbn [bind]. rewrite Ln, Hw. cbn [app]. do 2 f_equal. lia. }
+  destruct (N.eqb_spec (b0 / 32) 5) as [M5|M5].
+  { apply bind_ok in H as ((n & r1) & Hr & H). apply bind_ok in H as ((es & r2) & Hs & H).
+    inversion H; subst v rest. clear H.
+    destruct (read_len_inv _ _ _ _ Hwr Hinfo Hr) as (ext & -> & Hn64 & _ & Hw).
+    apply wf_bytes_app_iff in Hwr as [_ Hw1].
+    destruct (dec_map_canonical _ IH _ _ _ _ _ _ Hw1 Hs) as (kvs & -> & Em & Ln & C).
+    exists (b0 :: ext ++ concat (map (fun kv => fst kv ++ snd kv) kvs)).
+    split; [cbn [app]; rewrite <- app_assoc; reflexivity|].
+    cbn [enc]. rewrite Em. rewrite (finish_map_sorted _ C).
+    assert (lenN kvs = n).
+    { rewrite <- Ln. unfold lenN. f_equal. apply (f_equal (@length _)) in Em. rewrite !map_length in Em. auto. }
+    rewrite H, Hw. cbn [app]. do 2 f_equal. lia. }
+  apply dec_scalar_canonical; auto.
+Qed.
+
+Theorem cbor_canonical_nb b v :
+  wf_bytes b = true -> decode_nb b = Ok v -> enc v = Ok b.
+Proof.
+  intros Hwf H. unfold decode_nb in H.
+  destruct (dec_value (S (length b)) 0 b) as [[v' rest]|e] eqn:E; [|discriminate].
   destruct rest as [|x rest]; [|discriminate]. inversion H; subst v'.
-  destruct (dec_value_canonical _ _ _ _ Hwf E) as (pre & -> & Ee). rewrite app_nil_r. exact Ee.
+  destruct (dec_value_canonical _ _ _ _ _ Hwf E) as (pre & -> & Ee). rewrite app_nil_r. exact Ee.
 Qed.
 
 (* ================================================================== insertion sort facts, well-formedness *)
@@ -628,43 +667,44 @@ Proof.
 Qed.
 
 (* ------------------------------------------------------------------ well-formedness *)
-Definition good (v : value) : bool := wf_value v.
+Definition good (v : value) : bool := wf_shape v.
 
 Lemma good_array l : good (VArray l) = true -> lenN l < 2 ^ 64 /\ forallb good l = true.
 Proof.
-  unfold good. cbn [wf_value]. intros H. apply andb_true_iff in H as [HL H]. apply N.ltb_lt in HL. auto.
+  unfold good. cbn [wf_shape]. intros H. apply andb_true_iff in H as [HL H]. apply N.ltb_lt in HL. auto.
 Qed.
 
 Lemma good_map es : good (VMap es) = true ->
   lenN es < 2 ^ 64 /\ forallb (fun kv => good (fst kv) && good (snd kv)) es = true.
 Proof.
-  unfold good. cbn [wf_value]. intros H. apply andb_true_iff in H as [HL H]. apply N.ltb_lt in HL. auto.
+  unfold good. cbn [wf_shape]. intros H. apply andb_true_iff in H as [HL H]. apply N.ltb_lt in HL. auto.
 Qed.
 
 Lemma good_int z : good (VInt z) = true -> (- 2 ^ 64 <= z < 2 ^ 64)%Z.
 Proof.
-  unfold good. cbn [wf_value]. intros H. apply andb_true_iff in H as [A B].
+  unfold good. cbn [wf_shape]. intros H. apply andb_true_iff in H as [A B].
   apply Z.leb_le in A. apply Z.ltb_lt in B. lia.
 Qed.
 
 Lemma good_float b : good (VFloat b) = true -> b < 2 ^ 64.
-Proof. unfold good. cbn [wf_value]. apply N.ltb_lt. Qed.
+Proof. unfold good. cbn [wf_shape]. apply N.ltb_lt. Qed.
 
 Lemma good_text s : good (VText s) = true -> wf_bytes s = true /\ utf8_valid s = true /\ lenN s < 2 ^ 64.
 Proof.
-  unfold good. cbn [wf_value]. intros H.
+  unfold good. cbn [wf_shape]. intros H.
   apply andb_true_iff in H as [H H3]. apply andb_true_iff in H as [H1 H2]. apply N.ltb_lt in H3. auto.
 Qed.
 
 Lemma good_bytes s : good (VBytes s) = true -> wf_bytes s = true /\ lenN s < 2 ^ 64.
 Proof.
-  unfold good. cbn [wf_value]. intros H. apply andb_true_iff in H as [H1 H3]. apply N.ltb_lt in H3. auto.
+  unfold good. cbn [wf_shape]. intros H. apply andb_true_iff in H as [H1 H3]. apply N.ltb_lt in H3. auto.
 Qed.
 
 (* ================================================================== round-trip direction *)
 Definition rt_spec (v : value) : Prop :=
   forall pre, enc v = Ok pre -> good v = true ->
-  forall fuel rest, (length pre <= fuel)%nat -> dec_value fuel (pre ++ rest) = Ok (norm v, rest).
+  forall fuel depth rest, (length pre <= fuel)%nat -> depth + vdepth v <= 128 ->
+  dec_value fuel depth (pre ++ rest) = Ok (norm v, rest).
 
 Lemma write_major_nonempty major n : (1 <= length (write_major major n))%nat.
 Proof.
@@ -698,20 +738,22 @@ Proof.
   - discriminate.
 Qed.
 
-Lemma enc_int_dec z f rest :
-  (- 2 ^ 64 <= z < 2 ^ 64)%Z ->
-  dec_value (S f) (enc_int z ++ rest) = Ok (VInt z, rest).
+Lemma enc_int_dec z f depth rest :
+  depth <= 128 -> (- 2 ^ 64 <= z < 2 ^ 64)%Z ->
+  dec_value (S f) depth (enc_int z ++ rest) = Ok (VInt z, rest).
 Proof.
-  intros Hz. change (2 ^ 64)%Z with 18446744073709551616%Z in Hz.
+  intros Hd Hz. change (2 ^ 64)%Z with 18446744073709551616%Z in Hz.
   assert (P64 : 2 ^ 64 = 18446744073709551616) by reflexivity.
   unfold enc_int. destruct (Z.leb_spec 0 z) as [Hp|Hneg].
   - assert (Hn : Z.to_N z < 2 ^ 64) by (rewrite P64; lia).
     destruct (write_major_shape 0 (Z.to_N z) Hn) as (ext & -> & Hi & _ & Hr).
-    cbn [app dec_value]. rewrite head_div, head_mod by auto. cbn [N.eqb].
+    cbn [app]. rewrite dec_value_unfold by exact Hd. rewrite head_div, head_mod by auto.
+    unfold dec_scalar. cbn [N.eqb].
     rewrite Hr. cbn [bind]. rewrite Z2N.id by lia. reflexivity.
   - assert (Hn : Z.to_N (-1 - z) < 2 ^ 64) by (rewrite P64; lia).
     destruct (write_major_shape 1 (Z.to_N (-1 - z)) Hn) as (ext & -> & Hi & _ & Hr).
-    cbn [app dec_value]. rewrite head_div, head_mod by auto. cbn [N.eqb Pos.eqb].
+    cbn [app]. rewrite dec_value_unfold by exact Hd. rewrite head_div, head_mod by auto.
+    unfold dec_scalar. cbn [N.eqb Pos.eqb].
     rewrite Hr. cbn [bind].
     rewrite Z2N.id by lia. replace (-1 - (-1 - z))%Z with z by lia. reflexivity.
 Qed.
@@ -721,25 +763,30 @@ Proof. intros H1 H2. destruct fuel as [|f]; [lia|]. exists f. split; auto. lia. 
 
 Lemma rt_float b : rt_spec (VFloat b).
 Proof.
-  intros pre He Hg fuel rest Hf. cbn [enc] in He. inversion He; subst pre; clear He.
+  intros pre He Hg fuel depth rest Hf Hd. cbn [enc] in He. inversion He; subst pre; clear He.
+  cbn [vdepth] in Hd. assert (Hd' : depth <= 128) by lia. clear Hd.
   pose proof (good_float _ Hg) as Hb.
   destruct (fuel_S _ _ (enc_float_nonempty b) Hf) as (f & -> & _). clear Hf.
   cbn [norm]. unfold enc_float.
   destruct (f64_is_nan b) eqn:En.
-  { reflexivity. }
+  { cbn [app]. rewrite dec_value_scalar_head by (auto; reflexivity). reflexivity. }
   destruct (f64_is_inf b) eqn:Einf.
-  { rewrite (inf_bits b Hb Einf) at 2. destruct (fsign 11 52 b =? 0); reflexivity. }
+  { rewrite (inf_bits b Hb Einf) at 2.
+    destruct (fsign 11 52 b =? 0); cbn [app]; rewrite dec_value_scalar_head by (auto; reflexivity); reflexivity. }
   destruct (f64_to_int b) as [z|] eqn:Ei.
-  { apply enc_int_dec. apply (f64_to_int_range b); exact Ei. }
+  { apply enc_int_dec; auto. apply (f64_to_int_range b); exact Ei. }
   destruct (narrow16 b) as [h|] eqn:E16.
   { destruct (narrow16_some b h Hb E16) as [Ew Hh].
-    cbn [app]. change (dec_value (S f) (249 :: be_bytes 2 h ++ rest)) with (dec_float16 (be_bytes 2 h ++ rest)).
+    cbn [app]. rewrite dec_value_scalar_head by (auto; reflexivity).
+    change (dec_scalar (249 / 32) (249 mod 32) (be_bytes 2 h ++ rest)) with (dec_float16 (be_bytes 2 h ++ rest)).
     unfold dec_float16. rewrite read_uint_be by (exact Hh). cbn [bind]. rewrite Ew, En, Ei. reflexivity. }
   destruct (narrow32 b) as [s|] eqn:E32.
   { destruct (narrow32_some b s Hb E32) as [Ew Hs].
-    cbn [app]. change (dec_value (S f) (250 :: be_bytes 4 s ++ rest)) with (dec_float32 (be_bytes 4 s ++ rest)).
+    cbn [app]. rewrite dec_value_scalar_head by (auto; reflexivity).
+    change (dec_scalar (250 / 32) (250 mod 32) (be_bytes 4 s ++ rest)) with (dec_float32 (be_bytes 4 s ++ rest)).
     unfold dec_float32. rewrite read_uint_be by (exact Hs). cbn [bind]. rewrite Ew, Ei, En, E16. reflexivity. }
-  cbn [app]. change (dec_value (S f) (251 :: be_bytes 8 b ++ rest)) with (dec_float64 (be_bytes 8 b ++ rest)).
+  cbn [app]. rewrite dec_value_scalar_head by (auto; reflexivity).
+  change (dec_scalar (251 / 32) (251 mod 32) (be_bytes 8 b ++ rest)) with (dec_float64 (be_bytes 8 b ++ rest)).
   unfold dec_float64. rewrite read_uint_be by (exact Hb). cbn [bind]. rewrite Ei, En, E16, E32. reflexivity.
 Qed.
 
@@ -750,13 +797,18 @@ Proof. unfold lenN. rewrite Nat2N.id, skipn_app, Nat.sub_diag, skipn_all. reflex
 
 Lemma rt_strings (is_text : bool) s :
   wf_bytes s = true -> lenN s < 2 ^ 64 -> (is_text = true -> utf8_valid s = true) ->
-  forall f rest,
-  dec_value (S f) ((write_major (if is_text then 3 else 2) (lenN s) ++ s) ++ rest) =
+  forall f depth rest, depth <= 128 ->
+  dec_value (S f) depth ((write_major (if is_text then 3 else 2) (lenN s) ++ s) ++ rest) =
   Ok ((if is_text then VText s else VBytes s), rest).
 Proof.
-  intros Hw Hl Hu f rest.
+  intros Hw Hl Hu f depth rest Hd.
   destruct (write_major_shape (if is_text then 3 else 2) (lenN s) Hl) as (ext & -> & Hi & _ & Hr).
-  cbn [app dec_value]. rewrite head_div, head_mod by auto.
+  cbn [app]. rewrite dec_value_scalar_head;
+    [|exact Hd|rewrite head_div by auto; destruct is_text; reflexivity|rewrite head_div by auto; destruct is_text; reflexivity].
+  rewrite head_div, head_mod by auto. unfold dec_scalar.
+  replace ((if is_text then 3 else 2) =? 0) with false by (destruct is_text; reflexivity).
+  replace ((if is_text then 3 else 2) =? 1) with false by (destruct is_text; reflexivity).
+  replace (((if is_text then 3 else 2) =? 2) || ((if is_text then 3 else 2) =? 3)) with true by (destruct is_text; reflexivity).
   rewrite <- !app_assoc. rewrite Hr. cbn [bind].
   destruct (N.ltb_spec (lenN (s ++ rest)) (lenN s)) as [Hbad|_].
   { unfold lenN in Hbad. rewrite app_length in Hbad. lia. }
@@ -775,35 +827,50 @@ Proof.
     pose proof (enc_nonempty _ _ Ex). specialize (IH _ Es). rewrite app_length. cbn [length]. lia.
 Qed.
 
-Lemma enc_dec_seq f : forall l body,
+Lemma enc_dec_seq f depth : forall l body,
   Forall rt_spec l -> concat_results (map enc l) = Ok body -> forallb good l = true ->
+  Forall (fun x => depth + vdepth x <= 128) l ->
   forall k rest, (length body <= f)%nat -> (length l <= k)%nat ->
-  dec_seq (dec_value f) k (lenN l) (body ++ rest) = Ok (map norm l, rest).
+  dec_seq (dec_value f depth) k (lenN l) (body ++ rest) = Ok (map norm l, rest).
 Proof.
-  induction l as [|x l IH]; intros body HF He Hg k rest Hf Hk; cbn [map concat_results] in He.
+  induction l as [|x l IH]; intros body HF He Hg HD k rest Hf Hk; cbn [map concat_results] in He.
   - inversion He; subst. destruct k; reflexivity.
   - apply bind_ok in He as (bx & Ex & He). apply bind_ok in He as (bs & Es & He). inversion He; subst body. clear He.
     inversion HF as [|? ? Hx HF']; subst. cbn [forallb] in Hg. apply andb_true_iff in Hg as [Hgx Hgl].
+    inversion HD as [|? ? Hdx HD']; subst.
     destruct k as [|k]; [cbn in Hk; lia|]. cbn [dec_seq].
     destruct (N.eqb_spec (lenN (x :: l)) 0) as [E0|_]; [unfold lenN in E0; cbn in E0; lia|].
     rewrite app_length in Hf.
-    rewrite <- app_assoc. rewrite (Hx _ Ex Hgx f (bs ++ rest)) by lia. cbn [bind].
+    rewrite <- app_assoc. rewrite (Hx _ Ex Hgx f depth (bs ++ rest)) by (auto; lia). cbn [bind].
     replace (lenN (x :: l) - 1) with (lenN l) by (unfold lenN; cbn [length]; lia).
-    rewrite (IH _ HF' Es Hgl k rest) by (cbn [length] in Hk; lia). reflexivity.
+    rewrite (IH _ HF' Es Hgl HD' k rest) by (cbn [length] in Hk; lia). reflexivity.
+Qed.
+
+Lemma vdepth_array_in x l : In x l -> 1 + vdepth x <= vdepth (VArray l).
+Proof.
+  induction l as [|y l IH]; [intros []|]. cbn [vdepth fold_right] in *. intros [->|H]; [lia|].
+  specialize (IH H). lia.
+Qed.
+
+Lemma vdepth_map_in kv es : In kv es -> 1 + vdepth (fst kv) <= vdepth (VMap es) /\ 1 + vdepth (snd kv) <= vdepth (VMap es).
+Proof.
+  induction es as [|y l IH]; [intros []|]. cbn [vdepth fold_right] in *. intros [->|H]; [lia|].
+  specialize (IH H). lia.
 Qed.
 
 Lemma rt_array l : Forall rt_spec l -> rt_spec (VArray l).
 Proof.
-  intros HF pre He Hg fuel rest Hf. cbn [enc] in He.
+  intros HF pre He Hg fuel depth rest Hf Hd. cbn [enc] in He.
   apply bind_ok in He as (body & Eb & He). inversion He; subst pre; clear He.
   destruct (good_array _ Hg) as [Hl Hgl].
   destruct (write_major_shape 4 (lenN l) Hl) as (ext & Ew & Hi & _ & Hr).
   rewrite Ew in *. cbn [app length] in Hf. destruct fuel as [|f]; [lia|].
-  cbn [app dec_value]. rewrite head_div, head_mod by auto. cbn [N.eqb Pos.eqb orb].
+  cbn [app]. rewrite dec_value_unfold by lia. rewrite head_div, head_mod by auto. cbn [N.eqb Pos.eqb orb].
   rewrite <- app_assoc, Hr. cbn [bind].
   rewrite app_length in Hf.
-  rewrite (enc_dec_seq f l body HF Eb Hgl).
+  rewrite (enc_dec_seq f (depth + 1) l body HF Eb Hgl).
   - reflexivity.
+  - apply Forall_forall. intros x Hx. pose proof (vdepth_array_in x l Hx). lia.
   - lia.
   - pose proof (concat_results_length _ _ Eb). rewrite app_length. lia.
 Qed.
@@ -812,28 +879,29 @@ Qed.
 Definition entry_bytes (kv : bytes * result bytes) : result bytes :=
   bind (snd kv) (fun vb => Ok (fst kv ++ vb)).
 
-Definition ent_ok (x : bytes * (value * value)) : Prop :=
+Definition ent_ok (depth : N) (x : bytes * (value * value)) : Prop :=
   rt_spec (fst (snd x)) /\ rt_spec (snd (snd x)) /\
-  good (fst (snd x)) = true /\ good (snd (snd x)) = true /\ enc (fst (snd x)) = Ok (fst x).
+  good (fst (snd x)) = true /\ good (snd (snd x)) = true /\ enc (fst (snd x)) = Ok (fst x) /\
+  depth + vdepth (fst (snd x)) <= 128 /\ depth + vdepth (snd (snd x)) <= 128.
 
-Lemma enc_dec_map f : forall (L : list (bytes * (value * value))) last body,
-  Forall ent_ok L -> chain last (map fst L) ->
+Lemma enc_dec_map f depth : forall (L : list (bytes * (value * value))) last body,
+  Forall (ent_ok depth) L -> chain last (map fst L) ->
   concat_results (map entry_bytes (map_payload (fun kv => enc (snd kv)) L)) = Ok body ->
   forall k rest, (length body <= f)%nat -> (length L <= k)%nat ->
-  dec_map (dec_value f) k (lenN L) last (body ++ rest) =
+  dec_map (dec_value f depth) k (lenN L) last (body ++ rest) =
   Ok (map (fun x => (norm (fst (snd x)), norm (snd (snd x)))) L, rest).
 Proof.
   induction L as [|x L IH]; intros last body HF Hc He k rest Hf Hk; cbn [map_payload map concat_results] in He.
   - inversion He; subst. destruct k; reflexivity.
   - apply bind_ok in He as (bx & Ex & He). apply bind_ok in He as (bs & Es & He). inversion He; subst body. clear He.
     unfold entry_bytes in Ex. cbn [fst snd] in Ex. apply bind_ok in Ex as (vb & Ev & Ex). inversion Ex; subst bx. clear Ex.
-    inversion HF as [|? ? Hx HF']; subst. destruct Hx as (Rk & Rv & Gk & Gv & Ek).
+    inversion HF as [|? ? Hx HF']; subst. destruct Hx as (Rk & Rv & Gk & Gv & Ek & Dk & Dv).
     cbn [map chain] in Hc. destruct Hc as [Hprev Hc].
     destruct k as [|k]; [cbn in Hk; lia|]. cbn [dec_map].
     destruct (N.eqb_spec (lenN (x :: L)) 0) as [E0|_]; [unfold lenN in E0; cbn in E0; lia|].
     rewrite !app_length in Hf.
     rewrite <- !app_assoc.
-    rewrite (Rk _ Ek Gk f (vb ++ bs ++ rest)) by lia. cbn [bind].
+    rewrite (Rk _ Ek Gk f depth (vb ++ bs ++ rest)) by (auto; lia). cbn [bind].
     rewrite firstn_app_exact.
     assert (Hord : match last with
                    | None => Ok tt
@@ -842,7 +910,7 @@ Proof.
                    end = Ok tt).
     { destruct last as [prev|]; auto. rewrite (bytes_cmp_lt_gt _ _ Hprev). reflexivity. }
     rewrite Hord. cbn [bind].
-    rewrite (Rv _ Ev Gv f (bs ++ rest)) by lia. cbn [bind].
+    rewrite (Rv _ Ev Gv f depth (bs ++ rest)) by (auto; lia). cbn [bind].
     replace (lenN (x :: L) - 1) with (lenN L) by (unfold lenN; cbn [length]; lia).
     fold (map_payload (fun kv : value * value => enc (snd kv)) L) in Es.
     erewrite bind_eq; cycle 1.
@@ -878,7 +946,7 @@ Qed.
 
 Lemma rt_map es : Forall (fun kv => rt_spec (fst kv) /\ rt_spec (snd kv)) es -> rt_spec (VMap es).
 Proof.
-  intros HF pre He Hg fuel rest Hf. cbn [enc] in He. unfold finish_map in He.
+  intros HF pre He Hg fuel depth rest Hf Hd. cbn [enc] in He. unfold finish_map in He.
   apply bind_ok in He as (kvs & Ek & He).
   destruct (seq_keys_inv _ _ Ek) as [-> HK]. clear Ek.
   set (L0 := map (fun kv : value * value => (key_bytes (fst kv), kv)) es) in *.
@@ -887,12 +955,13 @@ Proof.
   apply bind_ok in He as (body & Eb & He). inversion He; subst pre; clear He.
   destruct (good_map _ Hg) as [Hl Hgl].
   set (L := sort_by L0) in *.
-  assert (HL : Forall ent_ok L).
+  assert (HL : Forall (ent_ok (depth + 1)) L).
   { apply Forall_forall. intros x Hx. apply sort_by_in in Hx. unfold L0 in Hx.
     apply in_map_iff in Hx as (kv & <- & Hin). cbn [fst snd].
     rewrite Forall_forall in HF, HK. destruct (HF _ Hin) as [Rk Rv]. 
     rewrite forallb_forall in Hgl. specialize (Hgl _ Hin). apply andb_true_iff in Hgl as [Gk Gv].
-    unfold ent_ok; cbn [fst snd]. refine (conj Rk (conj Rv (conj Gk (conj Gv _)))). apply HK; auto. }
+    destruct (vdepth_map_in kv es Hin) as [D1 D2].
+    unfold ent_ok; cbn [fst snd]. refine (conj Rk (conj Rv (conj Gk (conj Gv (conj _ (conj _ _)))))); [apply HK; auto|lia|lia]. }
   assert (HC : chain None (map fst L)).
   { apply lsorted_chain; auto. apply sort_by_lsorted. destruct L; exact I. }
   assert (Hlen : lenN (map (fun kv : value * value => (enc (fst kv), enc (snd kv))) es) = lenN L).
@@ -902,11 +971,11 @@ Proof.
   { unfold lenN, L, L0 in *. rewrite sort_by_length, map_length. exact Hl. }
   destruct (write_major_shape 5 (lenN L) HlL) as (ext & Ew & Hi & _ & Hr).
   rewrite Ew in *. cbn [app length] in Hf. destruct fuel as [|f]; [lia|].
-  cbn [app dec_value]. rewrite head_div, head_mod by auto. cbn [N.eqb Pos.eqb orb].
+  cbn [app]. rewrite dec_value_unfold by lia. rewrite head_div, head_mod by auto. cbn [N.eqb Pos.eqb orb].
   rewrite <- app_assoc, Hr. cbn [bind]. rewrite app_length in Hf.
   assert (HKL : Forall (fun x => enc (fst (snd x)) = Ok (fst x)) L).
   { eapply Forall_impl; [|exact HL]. intros x Hx. apply Hx. }
-  rewrite (enc_dec_map f L None body HL HC Eb).
+  rewrite (enc_dec_map f (depth + 1) L None body HL HC Eb).
   - cbn [norm]. do 3 f_equal.
     assert (Emap : map (fun kv : value * value => (key_bytes (fst kv), (norm (fst kv), norm (snd kv)))) es =
                    map_payload (fun kv : value * value => (norm (fst kv), norm (snd kv))) L0).
@@ -919,41 +988,44 @@ Qed.
 Lemma enc_dec_value : forall v, rt_spec v.
 Proof.
   induction v using value_ind'.
-  - intros pre He _ fuel rest Hf. cbn [enc] in He. inversion He; subst. destruct fuel; [cbn in Hf; lia|].
-    destruct b; reflexivity.
-  - intros pre He _ fuel rest Hf. cbn [enc] in He. inversion He; subst. destruct fuel; [cbn in Hf; lia|]. reflexivity.
-  - intros pre He Hg fuel rest Hf. cbn [enc] in He. inversion He; subst.
+  - intros pre He _ fuel depth rest Hf Hd. cbn [enc] in He. inversion He; subst. destruct fuel; [cbn in Hf; lia|].
+    cbn [vdepth] in Hd. destruct b; cbn [app]; rewrite dec_value_scalar_head by (try reflexivity; lia); reflexivity.
+  - intros pre He _ fuel depth rest Hf Hd. cbn [enc] in He. inversion He; subst. destruct fuel; [cbn in Hf; lia|].
+    cbn [vdepth] in Hd. cbn [app]. rewrite dec_value_scalar_head by (try reflexivity; lia). reflexivity.
+  - intros pre He Hg fuel depth rest Hf Hd. cbn [enc] in He. inversion He; subst.
     destruct (fuel_S _ _ (enc_nonempty _ _ (eq_refl : enc (VInt z) = Ok (enc_int z))) Hf) as (f & -> & _).
-    apply enc_int_dec. apply good_int; auto.
+    cbn [vdepth] in Hd. apply enc_int_dec; [lia|]. apply good_int; auto.
   - apply rt_float.
-  - intros pre He Hg fuel rest Hf. cbn [enc] in He. inversion He; subst.
+  - intros pre He Hg fuel depth rest Hf Hd. cbn [enc] in He. inversion He; subst.
     destruct (fuel_S _ _ (enc_nonempty _ _ (eq_refl : enc (VText s) = Ok _)) Hf) as (f & -> & _).
-    destruct (good_text _ Hg) as (Hw & Hu & Hl). apply (rt_strings true); auto.
-  - intros pre He Hg fuel rest Hf. cbn [enc] in He. inversion He; subst.
+    cbn [vdepth] in Hd. destruct (good_text _ Hg) as (Hw & Hu & Hl). apply (rt_strings true); auto. lia.
+  - intros pre He Hg fuel depth rest Hf Hd. cbn [enc] in He. inversion He; subst.
     destruct (fuel_S _ _ (enc_nonempty _ _ (eq_refl : enc (VBytes s) = Ok _)) Hf) as (f & -> & _).
-    destruct (good_bytes _ Hg) as (Hw & Hl). apply (rt_strings false); auto. discriminate.
+    cbn [vdepth] in Hd. destruct (good_bytes _ Hg) as (Hw & Hl). apply (rt_strings false); auto; [discriminate|lia].
   - apply rt_array; auto.
   - apply rt_map; auto.
   - intros pre He. discriminate.
 Qed.
 
-Theorem cbor_roundtrip_core v b :
-  wf_value v = true -> enc v = Ok b -> decode b = Ok (norm v).
+Theorem cbor_roundtrip_nb v b :
+  wf_value v = true -> enc v = Ok b -> decode_nb b = Ok (norm v).
 Proof.
-  intros Hg He. unfold decode.
-  pose proof (enc_dec_value v b He Hg (S (length b)) [] (Nat.le_succ_diag_r _)) as H.
-  rewrite app_nil_r in H. rewrite H. reflexivity.
+  intros Hg He. unfold wf_value in Hg. apply andb_true_iff in Hg as [Hs Hd]. apply N.leb_le in Hd.
+  unfold decode_nb.
+  pose proof (enc_dec_value v b He Hs (S (length b)) 0 [] (Nat.le_succ_diag_r _)) as H.
+  rewrite app_nil_r in H. rewrite H; [reflexivity|]. unfold MAX_DECODE_DEPTH in Hd. lia.
 Qed.
 
 (* ================================================================== corollaries *)
-Theorem cbor_decode_injective_core b1 b2 v :
-  wf_bytes b1 = true -> wf_bytes b2 = true -> decode b1 = Ok v -> decode b2 = Ok v -> b1 = b2.
+Theorem cbor_decode_injective_nb b1 b2 v :
+  wf_bytes b1 = true -> wf_bytes b2 = true -> decode_nb b1 = Ok v -> decode_nb b2 = Ok v -> b1 = b2.
 Proof.
-  intros W1 W2 D1 D2. pose proof (cbor_canonical_core _ _ W1 D1) as E1.
-  pose proof (cbor_canonical_core _ _ W2 D2) as E2. congruence.
+  intros W1 W2 D1 D2. pose proof (cbor_canonical_nb _ _ W1 D1) as E1.
+  pose proof (cbor_canonical_nb _ _ W2 D2) as E2. congruence.
 Qed.
-(* ================================================================== decoder output: well formed, normal; trailing bytes *)
-(* ------------------------------------------------------------------ decoder output is well formed *)
+
+(* ================================================================== decoder output: well formed, depth-bounded *)
+
 Lemma widen32_bound s : s < 4294967296 -> widen32 s < 2 ^ 64.
 Proof.
   intros Hs32. change 4294967296 with (2 ^ (1 + 8 + 23)) in Hs32.
@@ -978,11 +1050,11 @@ Proof.
 Qed.
 
 Definition wf_spec (d : bytes -> result (value * bytes)) : Prop :=
-  forall b v rest, wf_bytes b = true -> d b = Ok (v, rest) -> wf_value v = true.
+  forall b v rest, wf_bytes b = true -> d b = Ok (v, rest) -> wf_shape v = true.
 
 Lemma dec_seq_wf d (Hd : wf_spec d) (Hc : canon_spec d) :
   forall k n b vs rest, wf_bytes b = true -> dec_seq d k n b = Ok (vs, rest) ->
-    forallb wf_value vs = true /\ lenN vs = n.
+    forallb wf_shape vs = true /\ lenN vs = n.
 Proof.
   induction k as [|k IH]; intros n b vs rest Hwf H; cbn [dec_seq] in H.
   - destruct (N.eqb_spec n 0) as [->|]; [|discriminate]. inversion H; subst. auto.
@@ -996,7 +1068,7 @@ Qed.
 
 Lemma dec_map_wf d (Hd : wf_spec d) (Hc : canon_spec d) :
   forall k n last b es rest, wf_bytes b = true -> dec_map d k n last b = Ok (es, rest) ->
-    forallb (fun kv => wf_value (fst kv) && wf_value (snd kv)) es = true /\ lenN es = n.
+    forallb (fun kv => wf_shape (fst kv) && wf_shape (snd kv)) es = true /\ lenN es = n.
 Proof.
   induction k as [|k IH]; intros n last b es rest Hwf H; cbn [dec_map] in H.
   - destruct (N.eqb_spec n 0) as [->|]; [|discriminate]. inversion H; subst. auto.
@@ -1014,24 +1086,22 @@ Qed.
 Lemma P64 : 2 ^ 64 = 18446744073709551616.
 Proof. reflexivity. Qed.
 
-Lemma dec_value_wf : forall fuel, wf_spec (dec_value fuel).
+Lemma dec_scalar_wf b0 r v rest :
+  b0 < 256 -> wf_bytes r = true -> dec_scalar (b0 / 32) (b0 mod 32) r = Ok (v, rest) -> wf_shape v = true.
 Proof.
-  induction fuel as [|f IH]; intros b v rest Hwf H; [discriminate|].
-  pose proof (dec_value_canonical f) as Hc.
-  cbn [dec_value] in H. destruct b as [|b0 r]; [discriminate|].
-  apply wf_bytes_cons in Hwf as [Hb0 Hwr].
+  intros Hb0 Hwr H. unfold dec_scalar in H.
   pose proof (head_info_lt b0) as Hinfo.
   set (major := b0 / 32) in *. set (info := b0 mod 32) in *.
   destruct (major =? 0).
   { apply bind_ok in H as ((n & r1) & Hr & H). inversion H; subst v rest. clear H.
     destruct (read_len_inv _ _ _ _ Hwr Hinfo Hr) as (ext & -> & Hn64 & _ & _).
-    cbn [wf_value]. rewrite P64 in Hn64. change (2 ^ 64)%Z with 18446744073709551616%Z.
+    cbn [wf_shape]. rewrite P64 in Hn64. change (2 ^ 64)%Z with 18446744073709551616%Z.
     apply andb_true_iff. split; [apply Z.leb_le|apply Z.ltb_lt]; lia. }
   destruct (major =? 1).
   { apply bind_ok in H as ((n & r1) & Hr & H).
     assert (HH : v = VInt (-1 - Z.of_N n)) by congruence. subst v. clear H.
     destruct (read_len_inv _ _ _ _ Hwr Hinfo Hr) as (ext & -> & Hn64 & _ & _).
-    cbn [wf_value]. rewrite P64 in Hn64. change (2 ^ 64)%Z with 18446744073709551616%Z.
+    cbn [wf_shape]. rewrite P64 in Hn64. change (2 ^ 64)%Z with 18446744073709551616%Z.
     apply andb_true_iff. split; [apply Z.leb_le|apply Z.ltb_lt]; lia. }
   destruct ((major =? 2) || (major =? 3)).
   { apply bind_ok in H as ((n & r1) & Hr & H).
@@ -1041,23 +1111,9 @@ Proof.
     pose proof (wf_bytes_firstn (N.to_nat n) r1 Hw1) as Wd.
     pose proof (lenN_firstn n r1 Hle) as Ld.
     destruct (major =? 2).
-    - inversion H; subst v rest. cbn [wf_value]. rewrite Wd, Ld. apply N.ltb_lt in Hn64. rewrite Hn64. reflexivity.
+    - inversion H; subst v rest. cbn [wf_shape]. rewrite Wd, Ld. apply N.ltb_lt in Hn64. rewrite Hn64. reflexivity.
     - destruct (utf8_valid (firstn (N.to_nat n) r1)) eqn:U; [|discriminate].
-      inversion H; subst v rest. cbn [wf_value]. rewrite Wd, U, Ld. apply N.ltb_lt in Hn64. rewrite Hn64. reflexivity. }
-  destruct (major =? 4).
-  { apply bind_ok in H as ((n & r1) & Hr & H). apply bind_ok in H as ((items & r2) & Hs & H).
-    inversion H; subst v rest. clear H.
-    destruct (read_len_inv _ _ _ _ Hwr Hinfo Hr) as (ext & -> & Hn64 & _ & _).
-    apply wf_bytes_app_iff in Hwr as [_ Hw1].
-    destruct (dec_seq_wf _ IH Hc _ _ _ _ _ Hw1 Hs) as [A B].
-    cbn [wf_value]. rewrite A, B. apply N.ltb_lt in Hn64. rewrite Hn64. reflexivity. }
-  destruct (major =? 5).
-  { apply bind_ok in H as ((n & r1) & Hr & H). apply bind_ok in H as ((es & r2) & Hs & H).
-    inversion H; subst v rest. clear H.
-    destruct (read_len_inv _ _ _ _ Hwr Hinfo Hr) as (ext & -> & Hn64 & _ & _).
-    apply wf_bytes_app_iff in Hwr as [_ Hw1].
-    destruct (dec_map_wf _ IH Hc _ _ _ _ _ _ Hw1 Hs) as [A B].
-    cbn [wf_value]. rewrite A, B. apply N.ltb_lt in Hn64. rewrite Hn64. reflexivity. }
+      inversion H; subst v rest. cbn [wf_shape]. rewrite Wd, U, Ld. apply N.ltb_lt in Hn64. rewrite Hn64. reflexivity. }
   destruct (major =? 6); [discriminate|].
   destruct (info =? 20); [inversion H; reflexivity|].
   destruct (info =? 21); [inversion H; reflexivity|].
@@ -1068,7 +1124,7 @@ Proof.
     pose proof (from_be_bound ext Hwe) as B. rewrite Hl in B. change (256 ^ N.of_nat 2) with 65536 in B.
     destruct (f64_is_nan (widen16 (from_be ext)) && negb (from_be ext =? 32256)); [discriminate|].
     destruct (f64_to_int (widen16 (from_be ext))); [discriminate|]. inversion H; subst v rest.
-    cbn [wf_value]. apply N.ltb_lt. apply widen16_bound; auto. }
+    cbn [wf_shape]. apply N.ltb_lt. apply widen16_bound; auto. }
   destruct (info =? 26).
   { unfold dec_float32 in H. apply bind_ok in H as ((h & r1) & Hr & H).
     apply read_uint_ok in Hr as (ext & -> & Hl & ->). apply wf_bytes_app_iff in Hwr as [Hwe _].
@@ -1076,7 +1132,7 @@ Proof.
     destruct (f64_to_int (widen32 (from_be ext))); [discriminate|].
     destruct (f64_is_nan (widen32 (from_be ext))); [discriminate|].
     destruct (narrow16 (widen32 (from_be ext))); [discriminate|]. inversion H; subst v rest.
-    cbn [wf_value]. apply N.ltb_lt. apply widen32_bound; auto. }
+    cbn [wf_shape]. apply N.ltb_lt. apply widen32_bound; auto. }
   destruct (info =? 27).
   { unfold dec_float64 in H. apply bind_ok in H as ((h & r1) & Hr & H).
     apply read_uint_ok in Hr as (ext & -> & Hl & ->). apply wf_bytes_app_iff in Hwr as [Hwe _].
@@ -1085,37 +1141,123 @@ Proof.
     destruct (f64_is_nan (from_be ext)); [discriminate|].
     destruct (narrow16 (from_be ext)); [discriminate|].
     destruct (narrow32 (from_be ext)); [discriminate|]. inversion H; subst v rest.
-    cbn [wf_value]. apply N.ltb_lt. exact B. }
+    cbn [wf_shape]. apply N.ltb_lt. exact B. }
   destruct (info =? 31); discriminate.
 Qed.
 
-Theorem decode_output_wf b v : wf_bytes b = true -> decode b = Ok v -> wf_value v = true.
+Lemma dec_value_wf : forall fuel depth, wf_spec (dec_value fuel depth).
 Proof.
-  intros Hwf H. unfold decode in H.
-  destruct (dec_value (S (length b)) b) as [[v' rest]|e] eqn:E; [|discriminate].
-  destruct rest; [|discriminate]. inversion H; subst v'. apply (dec_value_wf _ _ _ _ Hwf E).
+  induction fuel as [|f IH]; intros depth b v rest Hwf H; [discriminate|].
+  pose proof (dec_value_depth_ok _ _ _ _ _ H) as Hd.
+  pose proof (dec_value_canonical f (depth + 1)) as Hc. specialize (IH (depth + 1)).
+  destruct b as [|b0 r]; [cbn [dec_value] in H; destruct (MAX_DECODE_DEPTH <? depth); discriminate|].
+  rewrite dec_value_unfold in H by exact Hd.
+  apply wf_bytes_cons in Hwf as [Hb0 Hwr].
+  pose proof (head_info_lt b0) as Hinfo.
+  destruct (b0 / 32 =? 4).
+  { apply bind_ok in H as ((n & r1) & Hr & H). apply bind_ok in H as ((items & r2) & Hs & H).
+    inversion H; subst v rest. clear H.
+    destruct (read_len_inv _ _ _ _ Hwr Hinfo Hr) as (ext & -> & Hn64 & _ & _).
+    apply wf_bytes_app_iff in Hwr as [_ Hw1].
+    destruct (dec_seq_wf _ IH Hc _ _ _ _ _ Hw1 Hs) as [A B].
+    cbn [wf_shape]. rewrite A, B. apply N.ltb_lt in Hn64. rewrite Hn64. reflexivity. }
+  destruct (b0 / 32 =? 5).
+  { apply bind_ok in H as ((n & r1) & Hr & H). apply bind_ok in H as ((es & r2) & Hs & H).
+    inversion H; subst v rest. clear H.
+    destruct (read_len_inv _ _ _ _ Hwr Hinfo Hr) as (ext & -> & Hn64 & _ & _).
+    apply wf_bytes_app_iff in Hwr as [_ Hw1].
+    destruct (dec_map_wf _ IH Hc _ _ _ _ _ _ Hw1 Hs) as [A B].
+    cbn [wf_shape]. rewrite A, B. apply N.ltb_lt in Hn64. rewrite Hn64. reflexivity. }
+  apply (dec_scalar_wf b0 r v rest); auto.
 Qed.
 
-Theorem decode_output_normal b v : wf_bytes b = true -> decode b = Ok v -> norm v = v.
+(* nesting depth of decoded values *)
+Lemma dec_scalar_vdepth major info r v rest : dec_scalar major info r = Ok (v, rest) -> vdepth v = 0.
 Proof.
-  intros Hwf H. pose proof (decode_output_wf _ _ Hwf H) as W.
-  pose proof (cbor_canonical_core _ _ Hwf H) as E.
-  pose proof (cbor_roundtrip_core _ _ W E) as R. congruence.
+  unfold dec_scalar, dec_float16, dec_float32, dec_float64. intros H.
+  repeat match type of H with
+         | (if ?c then _ else _) = _ => destruct c
+         | match ?c with Some _ => _ | None => _ end = _ => destruct c
+         | bind _ _ = Ok _ => apply bind_ok in H as ((? & ?) & _ & H)
+         end; try discriminate; inversion H; reflexivity.
 Qed.
 
-Theorem reject_trailing b v x xs :
-  wf_bytes b = true -> decode b = Ok v -> decode (b ++ x :: xs) = Err ETrailing.
+Lemma vdepth_array_bound l m : (forall x, In x l -> 1 + vdepth x <= m) -> vdepth (VArray l) <= m.
 Proof.
-  intros Hwf H. pose proof (decode_output_wf _ _ Hwf H) as W.
-  pose proof (cbor_canonical_core _ _ Hwf H) as E.
-  pose proof (decode_output_normal _ _ Hwf H) as Nv.
-  unfold decode.
-  rewrite (enc_dec_value v b E W (S (length (b ++ x :: xs))) (x :: xs)).
-  - reflexivity.
-  - rewrite app_length. lia.
+  induction l as [|x l IH]; intros H; cbn [vdepth fold_right] in *; [lia|].
+  pose proof (H x (or_introl eq_refl)). assert (forall y, In y l -> 1 + vdepth y <= m) by (intros y Hy; apply H; right; auto).
+  specialize (IH H1). lia.
 Qed.
 
-(* ================================================================== encoder output is bytes; rejection lemmas *)
+Lemma vdepth_map_bound es m :
+  (forall kv, In kv es -> 1 + vdepth (fst kv) <= m /\ 1 + vdepth (snd kv) <= m) -> vdepth (VMap es) <= m.
+Proof.
+  induction es as [|x l IH]; intros H; cbn [vdepth fold_right] in *; [lia|].
+  destruct (H x (or_introl eq_refl)). assert (H2 : forall y, In y l -> 1 + vdepth (fst y) <= m /\ 1 + vdepth (snd y) <= m) by (intros y Hy; apply H; right; auto).
+  specialize (IH H2). lia.
+Qed.
+
+Definition depth_spec (dp : N) (d : bytes -> result (value * bytes)) : Prop :=
+  forall b v rest, d b = Ok (v, rest) -> dp + vdepth v <= 128.
+
+Lemma dec_seq_depth dp d (Hd : depth_spec dp d) :
+  forall k n b vs rest, dec_seq d k n b = Ok (vs, rest) -> forall x, In x vs -> dp + vdepth x <= 128.
+Proof.
+  induction k as [|k IH]; intros n b vs rest H; cbn [dec_seq] in H.
+  - destruct (n =? 0); [|discriminate]. inversion H; subst. intros x [].
+  - destruct (n =? 0); [inversion H; subst; intros x []|].
+    apply bind_ok in H as ((v & b1) & Hv & H). apply bind_ok in H as ((vs' & b2) & Hs & H). inversion H; subst.
+    intros x [<-|Hx]; [apply (Hd _ _ _ Hv)|apply (IH _ _ _ _ Hs x Hx)].
+Qed.
+
+Lemma dec_map_depth dp d (Hd : depth_spec dp d) :
+  forall k n last b es rest, dec_map d k n last b = Ok (es, rest) ->
+    forall kv, In kv es -> dp + vdepth (fst kv) <= 128 /\ dp + vdepth (snd kv) <= 128.
+Proof.
+  induction k as [|k IH]; intros n last b es rest H; cbn [dec_map] in H.
+  - destruct (n =? 0); [|discriminate]. inversion H; subst. intros x [].
+  - destruct (n =? 0); [inversion H; subst; intros x []|].
+    apply bind_ok in H as ((kv & b1) & Hk & H). apply bind_ok in H as ([] & _ & H).
+    apply bind_ok in H as ((vv & b2) & Hv & H). apply bind_ok in H as ((es' & b3) & Hs & H). inversion H; subst.
+    intros x [<-|Hx]; [cbn [fst snd]; split; [apply (Hd _ _ _ Hk)|apply (Hd _ _ _ Hv)]|apply (IH _ _ _ _ _ Hs x Hx)].
+Qed.
+
+Lemma dec_value_vdepth : forall fuel depth, depth_spec depth (dec_value fuel depth).
+Proof.
+  induction fuel as [|f IH]; intros depth b v rest H; [discriminate|].
+  pose proof (dec_value_depth_ok _ _ _ _ _ H) as Hd. specialize (IH (depth + 1)).
+  destruct b as [|b0 r]; [cbn [dec_value] in H; destruct (MAX_DECODE_DEPTH <? depth); discriminate|].
+  rewrite dec_value_unfold in H by exact Hd.
+  destruct (b0 / 32 =? 4).
+  { apply bind_ok in H as ((n & r1) & _ & H). apply bind_ok in H as ((items & r2) & Hs & H). inversion H; subst.
+    pose proof (dec_seq_depth _ _ IH _ _ _ _ _ Hs) as K.
+    pose proof (vdepth_array_bound items (128 - depth)) as B.
+    assert (vdepth (VArray items) <= 128 - depth) by (apply B; intros x Hx; specialize (K x Hx); lia). lia. }
+  destruct (b0 / 32 =? 5).
+  { apply bind_ok in H as ((n & r1) & _ & H). apply bind_ok in H as ((es & r2) & Hs & H). inversion H; subst.
+    pose proof (dec_map_depth _ _ IH _ _ _ _ _ _ Hs) as K.
+    pose proof (vdepth_map_bound es (128 - depth)) as B.
+    assert (vdepth (VMap es) <= 128 - depth) by (apply B; intros x Hx; specialize (K x Hx); lia). lia. }
+  rewrite (dec_scalar_vdepth _ _ _ _ _ H). lia.
+Qed.
+
+Theorem decode_nb_output_wf b v : wf_bytes b = true -> decode_nb b = Ok v -> wf_value v = true.
+Proof.
+  intros Hwf H. unfold decode_nb in H.
+  destruct (dec_value (S (length b)) 0 b) as [[v' rest]|e] eqn:E; [|discriminate].
+  destruct rest; [|discriminate]. inversion H; subst v'. unfold wf_value.
+  rewrite (dec_value_wf _ _ _ _ _ Hwf E). pose proof (dec_value_vdepth _ _ _ _ _ E) as D.
+  apply N.leb_le. unfold MAX_DECODE_DEPTH. lia.
+Qed.
+
+Theorem decode_nb_output_normal b v : wf_bytes b = true -> decode_nb b = Ok v -> norm v = v.
+Proof.
+  intros Hwf H. pose proof (decode_nb_output_wf _ _ Hwf H) as W.
+  pose proof (cbor_canonical_nb _ _ Hwf H) as E.
+  pose proof (cbor_roundtrip_nb _ _ W E) as R. congruence.
+Qed.
+
+(* ================================================================== encoder output is bytes *)
 (* ------------------------------------------------------------------ encoder output is bytes *)
 Lemma write_major_wf major n : major < 8 -> wf_bytes (write_major major n) = true.
 Proof.
@@ -1139,10 +1281,10 @@ Proof.
   destruct (narrow32 b); apply wf_bytes_cons; (split; [lia|apply be_bytes_wf]).
 Qed.
 
-Definition encwf_spec (v : value) : Prop := forall b, wf_value v = true -> enc v = Ok b -> wf_bytes b = true.
+Definition encwf_spec (v : value) : Prop := forall b, wf_shape v = true -> enc v = Ok b -> wf_bytes b = true.
 
 Lemma concat_results_wf l :
-  Forall encwf_spec l -> forallb wf_value l = true ->
+  Forall encwf_spec l -> forallb wf_shape l = true ->
   forall body, concat_results (map enc l) = Ok body -> wf_bytes body = true.
 Proof.
   induction l as [|x l IH]; intros HF Hg body H; cbn [map concat_results] in H.
@@ -1190,237 +1332,6 @@ Proof.
     rewrite forallb_forall in Hgl. specialize (Hgl _ Hin). apply andb_true_iff in Hgl as [Gk Gv].
     split; [apply (Sk _ Gk (HK _ Hin))|intros vb Ev; apply (Sv _ Gv Ev)].
   - discriminate.
-Qed.
-
-(* any byte string other than THE canonical encoding of a value does not decode to it *)
-Theorem noncanonical_rejected v b b' :
-  wf_value v = true -> enc v = Ok b -> wf_bytes b' = true -> b' <> b -> decode b' <> Ok (norm v).
-Proof.
-  intros W E W' Hne Hd.
-  pose proof (enc_wf v b W E) as Wb.
-  pose proof (cbor_roundtrip_core _ _ W E) as R.
-  apply Hne. apply (cbor_decode_injective_core b' b (norm v)); auto.
-Qed.
-
-(* ------------------------------------------------------------------ rejection by class *)
-Lemma decode_head_err b0 r e :
-  (forall f, dec_value (S f) (b0 :: r) = Err e) -> decode (b0 :: r) = Err e.
-Proof. intros H. unfold decode. cbn [length]. rewrite H. reflexivity. Qed.
-
-Lemma decode_head_err' b0 r (P : err -> Prop) :
-  (forall f, exists e, dec_value (S f) (b0 :: r) = Err e /\ P e) -> exists e, decode (b0 :: r) = Err e /\ P e.
-Proof.
-  intros H. destruct (H (S (length r))) as (e & He & Hp). exists e. split; auto.
-  unfold decode. cbn [length]. rewrite He. reflexivity.
-Qed.
-
-Theorem reject_tag b0 r : 192 <= b0 < 224 -> decode (b0 :: r) = Err ETag.
-Proof.
-  intros H. apply decode_head_err. intros f. cbn [dec_value].
-  assert (E : b0 / 32 = 6).
-  { symmetry. apply N.div_unique with (r := b0 - 192); lia. }
-  rewrite E. reflexivity.
-Qed.
-
-Theorem reject_indefinite b0 r :
-  In b0 [0x1f; 0x3f; 0x5f; 0x7f; 0x9f; 0xbf; 0xff] -> decode (b0 :: r) = Err EIndefinite.
-Proof.
-  intros H. apply decode_head_err. intros f.
-  cbn [In] in H. repeat (destruct H as [<-|H]; [reflexivity|]). contradiction.
-Qed.
-
-(* a head whose argument would fit a narrower width is rejected (integers, and the lengths of
-   byte strings, text, arrays and maps) *)
-Definition wide_info (w : nat) : N := match w with 1%nat => 24 | 2%nat => 25 | 4%nat => 26 | _ => 27 end.
-Definition narrow_limit (w : nat) : N := match w with 1%nat => 23 | 2%nat => 255 | 4%nat => 65535 | _ => 4294967295 end.
-
-Theorem reject_nonminimal_head major w n rest :
-  major < 6 -> In w [1%nat; 2%nat; 4%nat; 8%nat] -> n <= narrow_limit w ->
-  decode ((major * 32 + wide_info w) :: be_bytes w n ++ rest) = Err ENonCanonInt.
-Proof.
-  intros Hm Hw Hn. apply decode_head_err. intros f. cbn [dec_value].
-  assert (Hi : wide_info w < 32) by (cbn [In] in Hw; destruct Hw as [<-|[<-|[<-|[<-|[]]]]]; cbn; lia).
-  rewrite head_div, head_mod by exact Hi.
-  assert (Hrl : read_len (wide_info w) (be_bytes w n ++ rest) = Err ENonCanonInt).
-  { cbn [In] in Hw. destruct Hw as [<-|[<-|[<-|[<-|[]]]]]; cbn [wide_info narrow_limit] in *; unfold read_len;
-      cbn [N.ltb N.eqb N.compare Pos.compare Pos.compare_cont Pos.eqb];
-      rewrite read_uint_be by (cbn; lia); cbn [bind];
-      match goal with |- (if ?c then _ else _) = _ => destruct c eqn:C end; try reflexivity;
-      apply N.leb_gt in C; lia. }
-  assert (major = 0 \/ major = 1 \/ major = 2 \/ major = 3 \/ major = 4 \/ major = 5) as Hc by lia.
-  destruct Hc as [->|[->|[->|[->|[->| ->]]]]]; cbn [N.eqb Pos.eqb orb]; rewrite Hrl; reflexivity.
-Qed.
-
-Theorem reject_f16_nan_payload h rest :
-  h < 65536 -> f64_is_nan (widen16 h) = true -> h <> 0x7e00 ->
-  decode (0xf9 :: be_bytes 2 h ++ rest) = Err ENonCanonFloat.
-Proof.
-  intros Hh Hn Hne. apply decode_head_err. intros f.
-  change (dec_value (S f) (249 :: be_bytes 2 h ++ rest)) with (dec_float16 (be_bytes 2 h ++ rest)).
-  unfold dec_float16. rewrite read_uint_be by exact Hh. cbn [bind]. rewrite Hn.
-  destruct (N.eqb_spec h 32256); [contradiction|]. reflexivity.
-Qed.
-
-(* a float that has an integer spelling is rejected at every width *)
-Theorem reject_integral_float_f64 b z rest :
-  b < 2 ^ 64 -> f64_to_int b = Some z -> decode (0xfb :: be_bytes 8 b ++ rest) = Err EFloatShouldBeInt.
-Proof.
-  intros Hb Hz. apply decode_head_err. intros f.
-  change (dec_value (S f) (251 :: be_bytes 8 b ++ rest)) with (dec_float64 (be_bytes 8 b ++ rest)).
-  unfold dec_float64. rewrite read_uint_be by exact Hb. cbn [bind]. rewrite Hz. reflexivity.
-Qed.
-
-Theorem reject_integral_float_f32 s z rest :
-  s < 4294967296 -> f64_to_int (widen32 s) = Some z -> decode (0xfa :: be_bytes 4 s ++ rest) = Err EFloatShouldBeInt.
-Proof.
-  intros Hs Hz. apply decode_head_err. intros f.
-  change (dec_value (S f) (250 :: be_bytes 4 s ++ rest)) with (dec_float32 (be_bytes 4 s ++ rest)).
-  unfold dec_float32. rewrite read_uint_be by exact Hs. cbn [bind]. rewrite Hz. reflexivity.
-Qed.
-
-(* a float that fits a narrower width is rejected at the wider ones *)
-Theorem reject_wide_float_f64 b rest :
-  b < 2 ^ 64 -> (f64_is_nan b = true \/ narrow16 b <> None \/ narrow32 b <> None) ->
-  exists e, decode (0xfb :: be_bytes 8 b ++ rest) = Err e /\ (e = ENonCanonFloat \/ e = EFloatShouldBeInt).
-Proof.
-  intros Hb H. apply (decode_head_err' 251 (be_bytes 8 b ++ rest) (fun e => e = ENonCanonFloat \/ e = EFloatShouldBeInt)).
-  { intros f. change (dec_value (S f) (251 :: be_bytes 8 b ++ rest)) with (dec_float64 (be_bytes 8 b ++ rest)).
-    unfold dec_float64. rewrite read_uint_be by exact Hb. cbn [bind].
-    destruct (f64_to_int b); [eauto|]. destruct (f64_is_nan b); [eauto|].
-    destruct (narrow16 b); [eauto|]. destruct (narrow32 b); [eauto|].
-    destruct H as [H|[H|H]]; [discriminate|contradiction|contradiction]. }
-Qed.
-
-Theorem reject_wide_float_f32 s rest :
-  s < 4294967296 -> (f64_is_nan (widen32 s) = true \/ narrow16 (widen32 s) <> None) ->
-  exists e, decode (0xfa :: be_bytes 4 s ++ rest) = Err e /\ (e = ENonCanonFloat \/ e = EFloatShouldBeInt).
-Proof.
-  intros Hs H. apply (decode_head_err' 250 (be_bytes 4 s ++ rest) (fun e => e = ENonCanonFloat \/ e = EFloatShouldBeInt)).
-  { intros f. change (dec_value (S f) (250 :: be_bytes 4 s ++ rest)) with (dec_float32 (be_bytes 4 s ++ rest)).
-    unfold dec_float32. rewrite read_uint_be by exact Hs. cbn [bind].
-    destruct (f64_to_int (widen32 s)); [eauto|]. destruct (f64_is_nan (widen32 s)); [eauto|].
-    destruct (narrow16 (widen32 s)); [eauto|].
-    destruct H as [H|H]; [discriminate|contradiction]. }
-Qed.
-
-(* ================================================================== fuel adequacy *)
-(* ------------------------------------------------------------------ the fuel never runs out *)
-Lemma bind_err {A B} (r : result A) (f : A -> result B) e :
-  bind r f = Err e -> r = Err e \/ exists a, r = Ok a /\ f a = Err e.
-Proof. destruct r as [a|e']; cbn; intros H; [right; eauto|left; congruence]. Qed.
-
-Lemma read_uint_not_fuel k r : read_uint k r <> Err EFuel.
-Proof. unfold read_uint. destruct (length r <? k)%nat; discriminate. Qed.
-
-Lemma read_len_not_fuel info r : read_len info r <> Err EFuel.
-Proof.
-  unfold read_len. intros H.
-  repeat match type of H with
-         | (if ?c then _ else _) = _ => destruct c
-         end; try discriminate;
-  (apply bind_err in H as [H|((v & r0) & _ & H)]; [exact (read_uint_not_fuel _ _ H)|];
-   match type of H with (if ?c then _ else _) = _ => destruct c end; discriminate).
-Qed.
-
-Lemma dec_float_not_fuel r : dec_float16 r <> Err EFuel /\ dec_float32 r <> Err EFuel /\ dec_float64 r <> Err EFuel.
-Proof.
-  unfold dec_float16, dec_float32, dec_float64. repeat split; intros H;
-    (apply bind_err in H as [H|((v & r0) & _ & H)]; [exact (read_uint_not_fuel _ _ H)|]);
-    repeat match type of H with
-           | (if ?c then _ else _) = _ => destruct c
-           | match ?c with Some _ => _ | None => _ end = _ => destruct c
-           end; discriminate.
-Qed.
-
-Definition consumes (d : bytes -> result (value * bytes)) : Prop :=
-  forall b v r, wf_bytes b = true -> d b = Ok (v, r) -> (length r < length b)%nat /\ wf_bytes r = true.
-
-Lemma dec_value_consumes fuel : consumes (dec_value fuel).
-Proof.
-  intros b v r Hwf H. destruct (dec_value_canonical fuel _ _ _ Hwf H) as (pre & -> & E).
-  apply wf_bytes_app_iff in Hwf as [_ Hr]. split; auto.
-  pose proof (enc_nonempty _ _ E). rewrite app_length. lia.
-Qed.
-
-Lemma dec_seq_no_fuel d F :
-  (forall b, wf_bytes b = true -> (length b < F)%nat -> d b <> Err EFuel) -> consumes d ->
-  forall k n b, wf_bytes b = true -> (length b < k)%nat -> (length b < F)%nat -> dec_seq d k n b <> Err EFuel.
-Proof.
-  intros Hnf Hc. induction k as [|k IH]; intros n b Hwf Hk HF H; [lia|].
-  cbn [dec_seq] in H. destruct (n =? 0); [discriminate|].
-  apply bind_err in H as [H|((v & b1) & Hd & H)]; [exact (Hnf _ Hwf HF H)|].
-  destruct (Hc _ _ _ Hwf Hd) as [Hl Hw1].
-  apply bind_err in H as [H|((vs & b2) & _ & H)]; [|discriminate].
-  apply (IH (n - 1) b1 Hw1); auto; lia.
-Qed.
-
-Lemma dec_map_no_fuel d F :
-  (forall b, wf_bytes b = true -> (length b < F)%nat -> d b <> Err EFuel) -> consumes d ->
-  forall k n last b, wf_bytes b = true -> (length b < k)%nat -> (length b < F)%nat -> dec_map d k n last b <> Err EFuel.
-Proof.
-  intros Hnf Hc. induction k as [|k IH]; intros n last b Hwf Hk HF H; [lia|].
-  cbn [dec_map] in H. destruct (n =? 0); [discriminate|].
-  apply bind_err in H as [H|((kv & b1) & Hd & H)]; [exact (Hnf _ Hwf HF H)|].
-  destruct (Hc _ _ _ Hwf Hd) as [Hl Hw1].
-  apply bind_err in H as [H|([] & _ & H)].
-  { destruct last as [prev|]; [|discriminate].
-    destruct (bytes_cmp (firstn (length b - length b1) b) prev); discriminate. }
-  apply bind_err in H as [H|((vv & b2) & Hd2 & H)]; [apply (Hnf _ Hw1 ltac:(lia) H)|].
-  destruct (Hc _ _ _ Hw1 Hd2) as [Hl2 Hw2].
-  apply bind_err in H as [H|((es & b3) & _ & H)]; [|discriminate].
-  apply (IH (n - 1) (Some (firstn (length b - length b1) b)) b2 Hw2); auto; lia.
-Qed.
-
-Lemma read_len_suffix info r n r1 : read_len info r = Ok (n, r1) -> (length r1 <= length r)%nat.
-Proof.
-  unfold read_len. intros H.
-  repeat match type of H with
-         | (if ?c then _ else _) = _ => destruct c
-         end; try discriminate; try (inversion H; subst; lia);
-  (apply bind_ok in H as ((v & r0) & Hu & H); apply read_uint_ok in Hu as (ext & -> & _ & _);
-   match type of H with (if ?c then _ else _) = _ => destruct c end; [discriminate|];
-   inversion H; subst; rewrite app_length; lia).
-Qed.
-
-Lemma dec_value_no_fuel : forall fuel b, wf_bytes b = true -> (length b < fuel)%nat -> dec_value fuel b <> Err EFuel.
-Proof.
-  induction fuel as [|f IH]; intros b Hwf Hl H; [lia|].
-  cbn [dec_value] in H. destruct b as [|b0 r]; [discriminate|].
-  apply wf_bytes_cons in Hwf as [Hb0 Hwr]. cbn [length] in Hl.
-  pose proof (head_info_lt b0) as Hinfo.
-  set (major := b0 / 32) in *. set (info := b0 mod 32) in *.
-  destruct (major =? 0).
-  { apply bind_err in H as [H|((n & r1) & _ & H)]; [exact (read_len_not_fuel _ _ H)|discriminate]. }
-  destruct (major =? 1).
-  { apply bind_err in H as [H|((n & r1) & _ & H)]; [exact (read_len_not_fuel _ _ H)|discriminate]. }
-  destruct ((major =? 2) || (major =? 3)).
-  { apply bind_err in H as [H|((n & r1) & _ & H)]; [exact (read_len_not_fuel _ _ H)|].
-    destruct (lenN r1 <? n); [discriminate|]. destruct (major =? 2); [discriminate|].
-    destruct (utf8_valid _); discriminate. }
-  destruct (major =? 4).
-  { apply bind_err in H as [H|((n & r1) & Hr & H)]; [exact (read_len_not_fuel _ _ H)|].
-    destruct (read_len_inv _ _ _ _ Hwr Hinfo Hr) as (ext & -> & _).
-    apply wf_bytes_app_iff in Hwr as [_ Hw1]. rewrite app_length in Hl.
-    apply bind_err in H as [H|((items & r2) & _ & H)]; [|discriminate].
-    apply (dec_seq_no_fuel (dec_value f) f (fun b W L => IH b W L) (dec_value_consumes f) _ _ _ Hw1) in H; auto; lia. }
-  destruct (major =? 5).
-  { apply bind_err in H as [H|((n & r1) & Hr & H)]; [exact (read_len_not_fuel _ _ H)|].
-    destruct (read_len_inv _ _ _ _ Hwr Hinfo Hr) as (ext & -> & _).
-    apply wf_bytes_app_iff in Hwr as [_ Hw1]. rewrite app_length in Hl.
-    apply bind_err in H as [H|((items & r2) & _ & H)]; [|discriminate].
-    apply (dec_map_no_fuel (dec_value f) f (fun b W L => IH b W L) (dec_value_consumes f) _ _ _ _ Hw1) in H; auto; lia. }
-  destruct (major =? 6); [discriminate|].
-  destruct (dec_float_not_fuel r) as (F16 & F32 & F64).
-  repeat match type of H with
-         | (if ?c then _ else _) = _ => destruct c
-         end; try discriminate; auto.
-Qed.
-
-Theorem decode_never_out_of_fuel b : wf_bytes b = true -> decode b <> Err EFuel.
-Proof.
-  intros Hwf H. unfold decode in H.
-  destruct (dec_value (S (length b)) b) as [[v [|x rest]]|e] eqn:E; try discriminate.
-  inversion H; subst e. apply (dec_value_no_fuel _ _ Hwf (Nat.lt_succ_diag_r _) E).
 Qed.
 
 (* ================================================================== map entry order *)
